@@ -5,7 +5,7 @@
     implementation on every check run (Model/HeaderRun.v, [c07_step] is the
     very function the histories below are made of). *)
 From Coq Require Import ZArith List Bool.
-From Hts Require Import Base.Prim Model.Header Model.HeaderRun Proofs.HeaderInv Proofs.HeaderWorld Proofs.HeaderHist Proofs.HeaderMerge.
+From Hts Require Import Base.Prim Model.Header Model.HeaderRun Proofs.HeaderInv Proofs.HeaderWorld Proofs.HeaderHist Proofs.HeaderMerge Proofs.HeaderText.
 Import ListNotations.
 Open Scope Z_scope.
 
@@ -42,6 +42,26 @@ Theorem merge_links :
     (e = 0 -> Forall2 (links_good w w' (length (w_h w))) (s0 :: srcs) links).
 Proof. exact merge_headers_spec. Qed.
 Print Assumptions merge_links.
+
+(** Text round trip, lexical half only (hence "partial"): the text MarshalText
+    produces for a header is the rendering of the document [doc_of] (one record
+    head and its "XX:value" fields per line), and, when heads and fields are
+    free of TAB, LF and CR, splitting it the way UnmarshalText does (lines at
+    LF, optional CR stripped, fields at TAB) gives back exactly these heads
+    and fields.  Missing for header_text_roundtrip / header_binary_roundtrip:
+    that the five line parsers rebuild the payload from the fields
+    (atoi (dec n) = n, hex_decode (hex_of s) = s, the date/URI laws) and that
+    the binary reference records are equal_refs to the text ones. *)
+Theorem header_text_roundtrip_partial :
+  forall w h rs gs ps,
+    objs (w_r w) (t_items (h_R h)) = Some rs -> objs (w_g w) (t_items (h_G h)) = Some gs ->
+    objs (w_p w) (t_items (h_P h)) = Some ps ->
+    (forall hd fs, In (hd, fs) (doc_of h rs gs ps) -> clean hd /\ forall f, In f fs -> clean f) ->
+    exists text, marshal_text w h = Ok text /\
+      map (fun l => split TAB (strip_cr l)) (split LF text)
+      = map (fun hf => fst hf :: snd hf) (doc_of h rs gs ps) ++ [[[]]].
+Proof. exact marshal_text_lex. Qed.
+Print Assumptions header_text_roundtrip_partial.
 
 (** What WInv says: in every header, for references, read groups and
     programs alike, the i-th listed item is owned by the header and has id i,
